@@ -741,6 +741,20 @@ func (s *Session) evalCall(se *SpecEnv, x *SCall) Val {
 		case "last": // last("F"): ghost clock value at the most recent call of event function F (0 = never)
 			name := x.Args[0].(*SStr).V
 			return untypedInt(Select(s.ghostGet(se.st, "evlast"), s.strLit(name)))
+		case "lastint": // lastint("F"): integer result of the most recent call of event function F
+			name := x.Args[0].(*SStr).V
+			return untypedInt(Select(s.ghostGet(se.st, "evres"), s.strLit(name)))
+		case "callres": // callres("Name", k): value returned by the k-th call (source order) of Name in this function
+			name := x.Args[0].(*SStr).V
+			k := x.Args[1].(*SNum).V
+			if se.fr == nil || se.fr.callResults == nil {
+				specFail("callres(%s,%s): no such call executed yet", name, k)
+			}
+			v, ok := se.fr.callResults[name+"#"+k]
+			if !ok {
+				specFail("callres(%s,%s): no such call executed yet", name, k)
+			}
+			return v
 		case "lastok": // lastok("F"): boolean result of the most recent call of event function F
 			name := x.Args[0].(*SStr).V
 			return boolVal(Eq(Select(s.ghostGet(se.st, "evres"), s.strLit(name)), I(1)))
@@ -749,6 +763,9 @@ func (s *Session) evalCall(se *SpecEnv, x *SCall) Val {
 			return untypedInt(app(SInt, "div", s.unixNano(v), I(1000000000)))
 		case "lastnow": // nanosecond reading of the most recent time.Now() call
 			return untypedInt(Select(s.ghostGet(se.st, "evres"), s.strLit("time.Now")))
+		case "allocated": // allocated(p): reference p denotes an object that exists in this state (or nil)
+			v := s.materialize(s.evalSpec(se, x.Args[0]))
+			return boolVal(And(Ge(v.L[0], I(0)), Le(v.L[0], se.st.Top)))
 		case "isnil":
 			v := s.materialize(s.evalSpec(se, x.Args[0]))
 			return boolVal(Eq(v.L[0], I(0)))
